@@ -155,6 +155,12 @@ package reader
 //@ func (vr *VerifiableReader) readAndCache
 //@   props C01
 //@   requires vr.r != nil && vr.r.cache != nil && vr.verifier != nil && fr != nil
-//@   assert[C01] before "vr.storeLastVerifyErr(err)"#1 : holds(vr.prohibitVerifyFailureMu) && !vr.prohibitVerifyFailure
-//@   assert[C01] before "vr.storeLastVerifyErr(err)"#2 : holds(vr.prohibitVerifyFailureMu) && !vr.prohibitVerifyFailure
 //@   assert[C01] before "return w.Commit()" : (v != nil && okDigest == chunkDigest) || vr.lastVerifyErr != nil
+// a verification failure is recorded only inside a critical section of the mode lock in which the mode was seen to be
+// "failures allowed" (this is what orders the record before VerifyTOC's read of it)
+//@ func (vr *VerifiableReader) storeLastVerifyErr
+//@   props C01
+//@   requires held(vr.prohibitVerifyFailureMu)
+//@   requires !vr.prohibitVerifyFailure
+//@   modifies vr.lastVerifyErr
+//@   ensures[C01] vr.lastVerifyErr == err
